@@ -10,7 +10,9 @@
 #include <string>
 #include <typeinfo>
 using namespace Tins;
-struct TouchStat { long calls, tins, foreign; std::string what; TouchStat() : calls(0), tins(0), foreign(0) {} };
+// ser_fail / ser_what: serialize() of an accepted packet threw or returned a size other than size().  Not an accessor in the
+// sense of C01 (it is the subject of C02: "for every packet obtained by parsing bytes ... serialize() succeeds"); recorded apart.
+struct TouchStat { long calls, tins, foreign, ser_fail; std::string what, ser_what; TouchStat() : calls(0), tins(0), foreign(0), ser_fail(0) {} };
 #define TOUCH(expr) do { ++st.calls; try { (void)(expr); } catch (exception_base&) { ++st.tins; } \
     catch (std::exception& e) { ++st.foreign; if (st.what.empty()) st.what = std::string(#expr) + ": " + typeid(e).name() + ": " + e.what(); } } while (0)
 
@@ -56,8 +58,8 @@ static void touch_layer(PDU* p, TouchStat& st) {
 static void touch_all(PDU* root, TouchStat& st, bool serializable) {
     for (PDU* p = root; p; p = p->inner_pdu()) touch_layer(p, st);
     TOUCH(root->size());
-    if (serializable) { ++st.calls; try { std::vector<uint8_t> b = root->serialize(); if (b.size() != root->size()) { ++st.foreign; if (st.what.empty()) st.what = "serialize(): size mismatch"; } }
-        catch (exception_base&) { ++st.tins; } catch (std::exception& e) { ++st.foreign; if (st.what.empty()) st.what = std::string("serialize: ") + typeid(e).name(); } }
+    if (serializable) { ++st.calls; try { std::vector<uint8_t> b = root->serialize(); if (b.size() != root->size()) { ++st.ser_fail; if (st.ser_what.empty()) st.ser_what = "serialize(): size mismatch"; } }
+        catch (std::exception& e) { ++st.ser_fail; if (st.ser_what.empty()) st.ser_what = std::string("serialize: ") + typeid(e).name() + ": " + e.what(); } }
     ++st.calls; try { PDU* c = root->clone(); delete c; } catch (exception_base&) { ++st.tins; } catch (std::exception& e) { ++st.foreign; if (st.what.empty()) st.what = std::string("clone: ") + typeid(e).name(); }
 }
 #endif
